@@ -121,10 +121,11 @@ def diff(
 
     source_copy = source.copy() if copy else source
     target_copy = target.copy() if copy else target
+    hashes = [] if copy else [node._hash for node in chain(source_nodes, target_nodes)]
 
     try:
         # We cache the hash of each new node here to speed up equality comparisons. If the input
-        # trees aren't copied, these hashes will be evicted before returning the edit script.
+        # trees aren't copied, the previous hashes will be restored before returning the edit script.
         if copy and matchings:
             source_mapping = compute_node_mappings(source_nodes, tuple(source_copy.walk()))
             target_mapping = compute_node_mappings(target_nodes, tuple(target_copy.walk()))
@@ -141,8 +142,8 @@ def diff(
         )
     finally:
         if not copy:
-            for node in chain(source_nodes, target_nodes):
-                node._hash = None
+            for node, hash_ in zip(chain(source_nodes, target_nodes), hashes):
+                node._hash = hash_
 
     return edit_script
 
